@@ -73,11 +73,54 @@ def run(name, props):
         sh('git -C /repo checkout -- .')
     meta.setdefault('detected_by', {})
     for p, r in res.items():
-        meta['detected_by'][p] = 'detected' if r['exit'] == 1 else 'missed'
+        how = 'missed'
+        if r['exit'] == 1:
+            how = 'detected'
+            if r['lines'] and all('no-failing-input-found' in l for l in r['lines'] if l.startswith('VIOLATION')):
+                how = 'detected (no-failing-input-found)'
+        meta['detected_by'][p] = how
+    meta['run_on_commit'] = subprocess.check_output('git -C /repo rev-parse --short HEAD', shell=True, text=True).strip()
     json.dump(meta, open(os.path.join(dst, 'meta.json'), 'w'), indent=1)
+    return 0
+
+def sweep(names):
+    """run every stored change (or the named ones) against the check of the property it breaks"""
+    names = names or sorted(os.listdir(os.path.join(V, 'seeded')))
+    for n in names:
+        if not os.path.exists(os.path.join(V, 'seeded', n, 'patch.diff')):
+            continue
+        print('==', n, flush=True)
+        rc = run(n, [])
+        if rc == 2:
+            meta = json.load(open(os.path.join(V, 'seeded', n, 'meta.json')))
+            meta.setdefault('detected_by', {})[meta['breaks']] = 'patch no longer applies to /repo HEAD'
+            json.dump(meta, open(os.path.join(V, 'seeded', n, 'meta.json'), 'w'), indent=1)
+    return 0
+
+def table():
+    """seeded/TABLE.md: every stored change, what it needs, which checks report it"""
+    rows = []
+    for n in sorted(os.listdir(os.path.join(V, 'seeded'))):
+        mp = os.path.join(V, 'seeded', n, 'meta.json')
+        if not os.path.exists(mp):
+            continue
+        m = json.load(open(mp))
+        det = '; '.join('%s: %s' % kv for kv in sorted(m.get('detected_by', {}).items())) or 'not run'
+        rows.append('| %s | %s | %s | %s |' % (n, m['breaks'], m.get('needs_to_manifest', '').replace('|', '/'), det))
+    out = ['# Seeded changes', '',
+           'Each directory holds `patch.diff` (the change), `demo_test.go` (fails with the change, passes without),',
+           '`notes.md` (the sub-agent\'s account) and `meta.json`. The last column is what `tools/seeded.py run <name> [props]`',
+           'recorded: the quick check of the named property with the change applied to /repo (exit 1 = detected).', '',
+           '| change | breaks | needs | quick checks |', '|---|---|---|---|'] + rows
+    open(os.path.join(V, 'seeded', 'TABLE.md'), 'w').write('\n'.join(out) + '\n')
+    print(len(rows), 'rows')
     return 0
 
 if __name__ == '__main__':
     if sys.argv[1] == 'add':
         sys.exit(add(sys.argv[2], sys.argv[3], sys.argv[4], sys.argv[5] if len(sys.argv) > 5 else ''))
+    if sys.argv[1] == 'sweep':
+        sys.exit(sweep(sys.argv[2:]))
+    if sys.argv[1] == 'table':
+        sys.exit(table())
     sys.exit(run(sys.argv[2], sys.argv[3:]))
